@@ -55,4 +55,7 @@ theorem C11_all_api_writes_fresh : Gen.writes.all (·.fresh) = true ∧ Gen.writ
     before reorderNonFinal / generated-provider replacement touch it -/
 theorem C11_bind_works_on_copies : Gen.characterizeCopies = true ∧ Gen.reorderCallersPrivate = true := by decide
 
+/-- an annotation function works on `copy()` of the provider: the copy must not share its annotation maps -/
+theorem C11_copies_own_their_maps : Gen.copyDeepCopiesMaps = true := by decide
+
 end Nject
